@@ -291,7 +291,7 @@ state_contract(
 state_contract(
     "lex_inside_line_statement", WC1,
     NEXT(["lex_markup", "lex_inside_liquid_tag"], {"lex_markup": ONE_TOKEN, "lex_inside_liquid_tag": ["appended(self.markup) == 0", "self.pos > old(self.pos)"]}),
-    loops={0: {"inv": IN_LINE_LOOP + ["appended(self.markup) == 0"], "dec": "len(self.source) - self.pos"}})
+    loops={0: {"inv": IN_LINE_LOOP + ["appended(self.markup) == 0", "self.pos >= old(self.pos)"], "dec": "len(self.source) - self.pos"}})
 state_contract(
     "lex_inside_block_comment", WC1, NEXT(["lex_markup"], {"lex_markup": ONE_TOKEN}),
     loops={0: {"inv": IN_BLOCK_COMMENT + ["appended(self.markup) == 0", "raw_depth >= 0"], "dec": "len(self.source) - self.pos"}})
@@ -375,16 +375,104 @@ contract(
 SCAN_PRE = ["self.start <= self.pos", "0 <= self.start and self.pos <= len(self.source)", "0 <= self.markup_start and self.markup_start < self.start"]
 SCAN_MOD = ["self.pos", "self.start", "self.in_range", "self.path_stack", "expression"]
 
+# ---- ghost abstractions for accept_template_string: the pieces collected so far, and the token list of one ${...} -------
+def NEST0(ex, name):
+    """`sub_expression = []`: an empty token list under the nesting abstraction."""
+    src = ex.sym("self.source", "str")
+    lo = ex.sym("self.markup_start", "int")
+    return HSpecList(name, {"append": _nest_append, "pop": _nest_pop, "__len__": _nest_len, "havoc": _nest_havoc},
+                     {"last_stop": z3.IntVal(0), "lo": lo.t, "n": z3.Length(src.t), "items": [], "count": z3.IntVal(0), "last_type": ex.fresh("no_type", "any").t})
+
+
+def _ts_append(ex, lst, args, kw):
+    (tok,) = args
+    st, sp = _tok_fields(ex, tok)
+    first = z3.simplify(lst.state["count"] == 0)
+    is_tok = isinstance(tok, HObj) and tok.cls.name == "Token"
+    if z3.is_true(first):
+        lst.state["first_start"], lst.state["first_stop"] = st, sp
+        lst.state["first_is_token"] = z3.BoolVal(is_tok)
+    elif not z3.is_false(first):
+        lst.state["first_start"] = z3.If(first, st, lst.state["first_start"])
+        lst.state["first_stop"] = z3.If(first, sp, lst.state["first_stop"])
+        lst.state["first_is_token"] = z3.If(first, z3.BoolVal(is_tok), lst.state["first_is_token"])
+    if is_tok:
+        lst.meta["token_type"] = ex.getattr(tok, "type_")
+    lst.state["count"] = lst.state["count"] + 1
+    return None
+
+
+def _ts_len(ex, lst, args, kw):
+    return SInt(lst.state["count"])
+
+
+def _ts_getitem(ex, lst, args, kw):
+    (key,) = args
+    if key != 0:
+        raise Unsupported("the piece list is read at index 0 only")
+    ex.require(lst.state["count"] > 0, "IndexError", "list index out of range")
+    from pyvc.values import ClassRef
+    tm = ex.repo.module("liquid2.token")
+    if ex.decide(lst.state["first_is_token"]):
+        # a plain string piece: Token(type_=<the string type of this literal>, index=start, value=source[start:stop])
+        idx = SInt(lst.state["first_start"])
+        val = ex.fresh("piece_value", "str")
+        ex.assume(z3.Length(val.t) == lst.state["first_stop"] - lst.state["first_start"])
+        return HObj(ClassRef("Token", tm, tm.classes["Token"]), {"type_": lst.meta.get("token_type", ex.fresh("piece_type", "any")), "value": val, "index": idx,
+                                                                  "source": ex.fresh("piece_source", "str")})
+    o = HObj(ClassRef("OutputToken", tm, tm.classes["OutputToken"]), {"type_": ex.fresh("out_type", "any"), "start": SInt(lst.state["first_start"]), "stop": SInt(lst.state["first_stop"]),
+                                                                       "wc": None, "expression": None, "source": ex.fresh("piece_source", "str")})
+    return o
+
+
+def _ts_havoc(ex, lst):
+    ex.assume(lst.state["count"] >= 0)
+
+
+def TSLIST(ex, name):
+    """`template_string = []`: the pieces (plain Token / OutputToken) of a template string collected so far; only its length and its first piece are read."""
+    l = HSpecList(name, {"append": _ts_append, "__len__": _ts_len, "__getitem__": _ts_getitem, "havoc": _ts_havoc},
+                  {"count": z3.IntVal(0), "first_start": z3.IntVal(0), "first_stop": z3.IntVal(0), "first_is_token": z3.BoolVal(False)})
+    l.meta = {}
+    return l
+
+
+@spec("ts_first_start", None)
+def _ts_first_start(ex, lst):
+    return SInt(lst.state["first_start"])
+
+
+@spec("ts_first_stop", None)
+def _ts_first_stop(ex, lst):
+    return SInt(lst.state["first_stop"])
+
+
+TS_INV = ["len(template_string) >= 0",
+          "implies(len(template_string) >= 1, start <= ts_first_start(template_string) and ts_first_start(template_string) <= ts_first_stop(template_string) and ts_first_stop(template_string) <= self.start)"]
+
 contract(
     "liquid2.lexer:Lexer.accept_template_string",
     props=["C17", "C02", "C20"],
     params={"self": Shared("lexer_self", LEXER(wc=WC1, **LISTS)), "quote": Union(Const("'"), Const('"')), "expression": Opaque(NEST, "nested")},
     pre=ACCEPT_PRE,
+    locals_={"sub_expression": NEST0, "template_string": TSLIST},
+    loops={
+        # scanning the characters of the literal: the current plain piece starts at self.start
+        0: {"inv": ["start == old(self.start)", "old(self.start) <= self.start and self.start <= self.pos and self.pos <= len(self.source)",
+                    "nest_stop(expression) == old(nest_stop(expression))"] + ACCEPT_FRAME + TS_INV,
+            "dec": "len(self.source) - self.pos"},
+        # scanning the tokens of one ${ ... } expression
+        1: {"inv": ["start == old(self.start)", "self.start == self.pos and self.pos <= len(self.source)", "sub_expression_start <= self.start and start < sub_expression_start",
+                    "nest_stop(sub_expression) <= self.start", "nest_stop(expression) == old(nest_stop(expression))"] + ACCEPT_FRAME
+                   + ["len(template_string) >= 0",
+                      "implies(len(template_string) >= 1, start <= ts_first_start(template_string) and ts_first_start(template_string) <= ts_first_stop(template_string) and ts_first_stop(template_string) <= sub_expression_start)"],
+            "dec": "len(self.source) - self.pos"},
+    },
     post=ACCEPT_FRAME + ["self.start == self.pos", "self.pos > old(self.pos)", "self.pos <= len(self.source)", "nest_stop(expression) <= self.pos"],
     post_exc=ERR_INSIDE,
     raises={"LiquidSyntaxError": None, "LiquidValueError": None},
     modifies=SCAN_MOD,
-    assumed="nested scanning loops with recursion into accept_token; contract checked at run time by the thorough tier only",
+    obj_fields=TOK_FIELDS,
 )
 
 # ---- ghost abstraction of the path stack: its depth and its top element (the only one the lexer reads) ---------------
